@@ -39,3 +39,9 @@ Definition ex_run12_dg (a1 a2 a3 a4 : list msg -> list msg) : outcome :=
 
 Lemma ex_downgrade_stopped : o_stage (ex_run12_dg strip13 idf idf idf) = (1, ALERT_ILLEGAL_PARAMETER).
 Proof. vm_compute. reflexivity. Qed.
+
+Lemma ex_fallback_hello :
+  ch_suites (client_first_hello 771 1 2 [49199; 156] true (Some 300) []) = [255; 49199; 156; 22016] /\
+  ch_sid (client_first_hello 771 1 2 [49199; 156] true (Some 300) []) = 300 /\
+  sel_version 769 772 (client_first_hello 771 1 2 [49199; 156] true (Some 300) []) = SelOk 771.
+Proof. vm_compute. repeat split; reflexivity. Qed.
